@@ -206,6 +206,10 @@ def gen_world(rng):
                 if c.endswith("_MS"):
                     p.pop("ref_ind", None)
                 a = {"cls": c, "name": f"{c}_{j}", "home": t["home"], "params": p}
+            if rng.random() < 0.15:
+                # no name given: the class name is used - two such algorithms of one class in one setup collide,
+                # and the one added later takes over the registration
+                a["name"], a["default_name"] = a["cls"], True
             if rng.random() < 0.12:
                 a["params"] = None  # constructed without run parameters: the gate must hold
             if rng.random() < 0.06 and a["params"] is not None:
@@ -242,9 +246,10 @@ def build_arrays(w):
 
 def make_alg(spec):
     cls = _classes()[spec["cls"]]
+    name = None if spec.get("default_name") else spec["name"]
     if spec["params"] is None:
-        return cls(name=spec["name"])
-    return cls(name=spec["name"], **copy.deepcopy(spec["params"]))
+        return cls(name=name)
+    return cls(name=name, **copy.deepcopy(spec["params"]))
 
 
 def make_setup(s, arrays, fs):
@@ -836,6 +841,10 @@ def apply_op(wd: World, op, step):
             if st.added_to is not None and st.added_to != si:
                 wd.inc("probe.moved_between_setups")
             st.added_to = si
+            for j in wd.members(si):
+                if j != i and w["algs"][j]["name"] == w["algs"][i]["name"]:
+                    wd.st[j].added_to = None  # same name: the later registration replaces the earlier one
+                    wd.inc("probe.name_collision_replaces_registration")
             a = wd.algs[i]
             if a.data is not setup.data and h_data(a.data) != h_data(setup.data):
                 wd.violate("bind.data", step, f"{w['algs'][i]['name']} was not bound to the setup's current data", i)
